@@ -405,6 +405,35 @@ pub fn gen_c10(run: &mut crate::Run, seed: u64, thorough: bool) {
             }
         }
     }
+    // directed: the shortest inputs (no bytes at all, fewer than one word, exactly one word) for both decoders, and canonical
+    // hub wrappers around an inner message of those lengths — an orderly rejection, never a crash
+    for n in [0usize, 1, 5, 31, 32, 33, 64] {
+        let b = vec![0u8; n];
+        run.op(&format!("abi.dec {}", hx(&b)), &format!("short-input-zero-len{n}"));
+        run.op(&format!("abi.dec_hub {}", hx(&b)), &format!("short-input-zero-len{n}-hub"));
+        let mut t = vec![0u8; n];
+        if n > 0 {
+            t[n - 1] = 4;
+        }
+        run.op(&format!("abi.dec_hub {}", hx(&t)), &format!("short-input-typed-len{n}-hub"));
+        for outer_ty in [3u128, 4] {
+            let chain = b"axelar".to_vec();
+            let mut outer = vec![];
+            outer.extend_from_slice(&word(outer_ty));
+            outer.extend_from_slice(&word(96));
+            let chain_tail_len = 32 + ((chain.len() + 31) / 32) * 32;
+            outer.extend_from_slice(&word(96 + chain_tail_len as u128));
+            outer.extend_from_slice(&word(chain.len() as u128));
+            let mut c = chain.clone();
+            c.resize(((chain.len() + 31) / 32) * 32, 0);
+            outer.extend_from_slice(&c);
+            outer.extend_from_slice(&word(n as u128));
+            let mut p = vec![0u8; n];
+            p.resize(((n + 31) / 32) * 32, 0);
+            outer.extend_from_slice(&p);
+            run.op(&format!("abi.dec_hub {}", hx(&outer)), &format!("wrapper-type{outer_ty}-inner-len{n}"));
+        }
+    }
     // directed: byte fields whose CONTENT is degenerate (all zero / all 0xff) at every interesting length — an empty optional
     // field reads back as absent, a non-empty one never does, whatever its content
     for fill in [0u8, 0xff] {
